@@ -100,7 +100,8 @@ def num_to_str(n: Optional[float], fmt: str) -> Optional[str]:
         # on an integral number of the smallest units the format shows,
         # so that carries propagate (59.9 minutes is never rendered as :60)
         sign = "-" if n < 0 else ""
-        wholes, fraction = divmod(round(abs(n) * base), base)
+        # exact arithmetic: no float product that could lose precision or overflow
+        wholes, fraction = divmod(round(Fraction(abs(n)) * base), base)
 
         if fraction_length == 3:
             return f"{sign}{wholes}:{fraction:02d}"
